@@ -41,6 +41,7 @@ pub struct Cfg {
     pub f_preempt: bool,
     pub f_sink_err: bool,
     pub f_dtor: bool,
+    pub f_reent: bool,
     pub personality: usize,
     /// 0 flat from the root, 1 chain (newest spawns), 2 tree (whoever acts)
     pub spawn_shape: u8,
@@ -57,7 +58,8 @@ impl Cfg {
             || self.f_exit
             || self.f_preempt
             || self.f_sink_err
-            || self.f_dtor)
+            || self.f_dtor
+            || self.f_reent)
     }
 
     pub fn describe(&self) -> String {
@@ -68,7 +70,7 @@ impl Cfg {
         format!(
             "threads<={} steps={} w(set,read,op,spawn,exit,die,sweep)={:?} \
              classes(witness,wide,exact,panicking)={:?} faults[panic={} die={} \
-             exit={} preempt={} sinkerr={} dtor={}] personality={} shape={} \
+             exit={} preempt={} sinkerr={} dtor={} reent={}] personality={} shape={} \
              builder%={} ref={} kinds={}",
             self.max_threads,
             self.n_steps,
@@ -80,6 +82,7 @@ impl Cfg {
             self.f_preempt as u8,
             self.f_sink_err as u8,
             self.f_dtor as u8,
+            self.f_reent as u8,
             PERSONALITY_NAMES[self.personality],
             ["flat", "chain", "tree"][self.spawn_shape as usize],
             self.builder_pct,
@@ -117,13 +120,22 @@ pub fn gen_cfg(rng: &mut Rng, tier_thorough: bool) -> Cfg {
     ];
     // fault kinds: random subset; a fifth of the runs are fault-free
     let fault_free = rng.below(5) == 0;
-    let mut f = [false; 6];
+    let mut f = [false; 7];
     if !fault_free {
         for x in f.iter_mut() {
             *x = rng.pct(55);
         }
     }
-    let [f_panic, f_die, f_exit, f_preempt, f_sink_err, f_dtor] = f;
+    // ablation knob for sensitivity experiments only (never set by the
+    // registered commands): VERIF_DISABLE=dtor,reent,...
+    if let Ok(d) = std::env::var("VERIF_DISABLE") {
+        for (i, name) in ["panic", "die", "exit", "preempt", "sinkerr", "dtor", "reent"].iter().enumerate() {
+            if d.split(',').any(|x| x == *name) {
+                f[i] = false;
+            }
+        }
+    }
+    let [f_panic, f_die, f_exit, f_preempt, f_sink_err, f_dtor, f_reent] = f;
     if f_exit {
         w[4] = rng.range(1, 10) as u32;
     }
@@ -159,6 +171,7 @@ pub fn gen_cfg(rng: &mut Rng, tier_thorough: bool) -> Cfg {
         f_preempt,
         f_sink_err,
         f_dtor,
+        f_reent,
         personality: rng.usize_below(N_PERSONALITIES),
         spawn_shape: rng.below(3) as u8,
         builder_pct: [0u32, 30, 100][rng.usize_below(3)],
@@ -620,7 +633,8 @@ pub fn gen_op(rng: &mut Rng, cfg: &Cfg, kind: usize, class: Class) -> Op {
             } else {
                 0
             };
-            Op::Fmt { a, var, w: width, p, pauses, err_at }
+            let reent = cfg.f_reent && rng.pct(40);
+            Op::Fmt { a, var, w: width, p, pauses, err_at, reent }
         }
         // to_string (control)
         _ => Op::ToStr { a: if wide { (sign * big(rng, 30), rng.range(0, 18) as u8) } else { small_dec(rng) } },
@@ -643,7 +657,7 @@ struct GThread {
 fn pick_kind(rng: &mut Rng, cfg: &Cfg) -> usize {
     // Display is the only operation with a mid-operation seam: when
     // pre-emption or sink errors are enabled, make it frequent
-    if (cfg.f_preempt || cfg.f_sink_err) && cfg.kinds[19] && rng.pct(25) {
+    if (cfg.f_preempt || cfg.f_sink_err || cfg.f_reent) && cfg.kinds[19] && rng.pct(25) {
         return 19;
     }
     let enabled: Vec<usize> = (0..N_KINDS).filter(|k| cfg.kinds[*k]).collect();
@@ -660,6 +674,18 @@ fn pick_class(rng: &mut Rng, cfg: &Cfg) -> Class {
 }
 
 fn pick_mode(rng: &mut Rng, cfg: &Cfg, live: &[GThread], me: u32) -> u8 {
+    // transitions a per-thread register must survive: back to the initial
+    // mode (also redundantly, on a thread that never left it) and setting
+    // the mode one already has
+    match rng.below(20) {
+        0..=2 => return HALF_EVEN,
+        3 => {
+            if let Some(t) = live.iter().find(|t| t.id == me) {
+                return t.mode;
+            }
+        }
+        _ => {}
+    }
     if rng.pct(cfg.distinct_mode_pct) {
         let mut used = [false; 8];
         for t in live {
@@ -905,6 +931,7 @@ pub fn gen_plan(seed: u64, idx: u64, tier_thorough: bool) -> Generated {
             ref_per_event: cfg.ref_per_event,
             root_probe_early,
             root_api_builder,
+            root_is_main: false,
             steps,
             note,
         },
